@@ -34,7 +34,10 @@ def rule_seek(ctx):
     if st:
         ctx.check('seek', 'only-on-success', st[0][2] == ['seek(self.reader, a2) is Ok'], (s, st[0][3]), 'stored on the Ok edge')
     rets = [canon(s.rvalue_expr(d[3])) for d in s.defs().get(0, []) if d[0] == 'assign']
-    ctx.check('seek', 'returns-new-position', rets == ['Result::Ok{0: self.absolute_pos}'] or rets == ['Result::Ok{0: seek(self.reader, a2)?}'], s, 'returns %s' % rets)
+    okr = [x for x in rets if x.startswith('Result::Ok')]
+    err = [x for x in rets if not x.startswith('Result::Ok')]
+    ctx.check('seek', 'returns-new-position', okr in (['Result::Ok{0: self.absolute_pos}'], ['Result::Ok{0: seek(self.reader, a2)?}']) and
+              all(x == 'Result::Err{0: (seek(self.reader, a2) as Err).0}' for x in err), s, 'returns %s' % rets)
     inner = [c for c in s.calls if mir.method_name(c.name) == 'seek']
     ctx.check('seek', 'forwards-request-unchanged', len(inner) == 1 and [canon(a) for a in s.arg_exprs(inner[0])] == ['self.reader', 'a2'], s, 'inner.seek(pos)')
 
@@ -52,18 +55,25 @@ def rule_read(ctx):
     for bb, idx, place, rv, st in r.stores():
         pe = canon(r.place_expr(place))
         ve = canon(r.rvalue_expr(rv)) if rv is not None else None
-        if pe.startswith('a2['):
+        if pe.startswith('a2[') or pe.startswith('each(take(enumerate(a2), '):
             xs.append((pe, ve, bb))
         elif pe == 'self.absolute_pos':
             pos_st.append((ve, bb))
         else:
             ctx.violation('read', 'unexpected-store:%s' % pe, (r, bb), '%s = %s' % (pe, ve))
-    i = 'each(Range::Range{start: 0, end: %s})' % n
     key = 'self.xor_key?'
-    want_idx = '((((%s as u64) + self.absolute_pos) %% (len(%s) as u64)) as usize)' % (i, key)
-    want = '(a2[%s] ^ %s[%s])' % (i, key, want_idx)
-    alt = '(a2[%s] ^ %s[((((self.absolute_pos + (%s as u64)) %% (len(%s) as u64)) as usize)])' % (i, key, i, key)
-    ctx.check('read', 'xor-with-key[(i+pos)%len]', len(xs) == 1 and xs[0][0] == 'a2[%s]' % i and xs[0][1] in (want, alt), (r, xs[0][2]) if xs else r,
+    # two spellings of "for each of the first n bytes, with its index": an index loop 0..n, or
+    # buf.iter_mut().enumerate().take(n)
+    forms = [('a2[%s]' % ('each(Range::Range{start: 0, end: %s})' % n), 'each(Range::Range{start: 0, end: %s})' % n),
+             ('each(take(enumerate(a2), %s)).1' % n, 'each(take(enumerate(a2), %s)).0' % n)]
+    okx = False
+    for place, i in forms:
+        want_idx = '((((%s as u64) + self.absolute_pos) %% (len(%s) as u64)) as usize)' % (i, key)
+        want = '(%s ^ %s[%s])' % (place, key, want_idx)
+        alt = '(%s ^ %s[((((self.absolute_pos + (%s as u64)) %% (len(%s) as u64)) as usize)])' % (place, key, i, key)
+        if len(xs) == 1 and xs[0][0] == place and xs[0][1] in (want, alt):
+            okx = True
+    ctx.check('read', 'xor-with-key[(i+pos)%len]', okx, (r, xs[0][2]) if xs else r,
               'buf[i] ^= %s' % (xs[0][1] if xs else '?'),
               bad_detail='buf[i] is combined as %s; required key[(i + absolute_pos) %% key.len()] over i in 0..n' % (xs[0][1] if xs else '?'))
     if xs:
